@@ -304,4 +304,8 @@ func init() {
 		Old:    "\t\tcurrentProcessBody.Substitute(f.channel_two, newSplitNames[1])",
 		New:    "\t\tcurrentProcessBody.Substitute(f.channel_one, newSplitNames[1])",
 		Expect: "binder-channel_two"})
+	addFixture(Fixture{Name: "call-formals-shifted", Rule: "R-CALL-ALIGN", File: "process/typechecker.go",
+		Old:    "\t\t\texpectedType := functionSignature.Parameters[i-1].Type",
+		New:    "\t\t\texpectedType := functionSignature.Parameters[i].Type",
+		Expect: "(*process.CallForm).typecheckForm | type-comparison#1"})
 }
